@@ -195,6 +195,8 @@ def run(repo: Repo, rep: Report, tier: str) -> None:
     _c01._r01_5(repo, Only(rep, {"R01.5"}))
     from . import c12 as _c12
     _c12.run(repo, Only(rep, {"R12.1i"}), tier)
+    from . import c17 as _c17
+    _c17._type_name_lossless(repo, Only(rep, {"R17.12"}))
 
 POSITIVE = '''
 def _positive(self, fname, metadata):
@@ -232,3 +234,6 @@ LEVEL_TEXT += _ADDENDUM
 _ADD9 = ' Borrowed: R12.1i (the discriminator field string is used as one key, not interpreted as a path).'
 EXPLANATION += _ADD9
 LEVEL_TEXT += _ADD9
+_ADD21 = ' Borrowed: R17.12.'
+EXPLANATION += _ADD21
+LEVEL_TEXT += _ADD21
